@@ -1,6 +1,7 @@
 \* Exhaustive, thorough tier, read argument space: every forward / reverse / latest request of the
 \* three layers (limits 1..3, every start / end / max in 0..4 and MaxUint64) in every reachable
 \* state of the one-follower model with log end <= 3.
+\* Measured: 15,644 distinct states, about 5.2 million transitions (3 min at load 50).
 SPECIFICATION Spec
 CONSTANTS
   Followers = {2}
